@@ -108,22 +108,30 @@ prop("C05", "KT", "model_checking",
 
 K_IDX_TEXT = ("Bounded model checking of the wirm-owned index machinery, as a chain: (1) K-ops: one public edit operation with symbolic arguments on a real Module re-establishes the reachable-state invariant Inv and returns ids that designate the added entity; (2) K-reindex: from EVERY state satisfying Inv (<= 4 entities quick / 5 thorough, import list of N+1 entries) the real reorganise_generic / get_mapping_generic / recalculate_ids keep exactly the live entities, put imports first, map each old id to the final position of the same entity and agree with the order in which the import section emits function imports; (3) K-opmap: for every wasmparser Operator variant (617, field-name oracle) with symbolic immediates the real fix_op_id_mapping pushes each reference through the map of its own index space exactly once and changes nothing else; a stale reference panics. ")
 K_IDX_OUT = ("the inline remapping of exports / start / element items and the raw ConstExprs of tables and elements in encode_internal (inline between wasm-encoder calls, not executable by CBMC); validity of the output; Inv is an abstraction written in the harness: K-ops shows the decided operations re-establish it from one representative base state, not from every Inv state")
-prop("C06", "K", "model_checking", text=K_IDX_TEXT + "For C06: function operators Call / ReturnCall / RefFunc and InitInstr::RefFunc, function operations add_import_func / add_local_func / delete_func / convert_local_fn_to_import / convert_import_fn_to_local.",
-     technique="Kani/CBMC bounded model checking of the generic re-indexing code on light types (inductive over the reachable-state invariant), of single edit operations on the real Module and of fix_op_id_mapping over all Operator variants", outside=K_IDX_OUT)
-prop("C07", "K", "model_checking", text=K_IDX_TEXT + "For C07: the 11 global-indexed operators and InitInstr::Global; add_global, add_imported_global (also after an iterator-level add_global), delete_global, mod_global_init_expr.",
-     technique="Kani/CBMC bounded model checking (K-ops on globals, K-reindex, K-opmap)", outside=K_IDX_OUT + "; global exports are emitted without remapping (`_ =>` arm of the export loop): outside")
-prop("C08", "K", "model_checking", text=K_IDX_TEXT + "For C08: all 117 memory-indexed operators (111 memarg + memory.size/grow/init/copy/fill/discard); add_local_memory, add_import_memory, delete_memory.",
-     technique="Kani/CBMC bounded model checking (K-ops on memories, K-reindex, K-opmap over every memarg/mem/src_mem/dst_mem operator)", outside=K_IDX_OUT + "; the active-data-segment memory lookup and memory export lines of encode_internal")
-prop("C09", "K", "model_checking", text=K_IDX_TEXT + "For C09: deleted entities disappear and have NO mapping (R1/R3), every other entity keeps its identity; a reference to an unmapped index panics in fix_op_id_mapping for every referencing operator (expect-panic harnesses: the code after the call is unreachable); delete_func/global/memory flag exactly the addressed entity and its import entry; ModuleExports::delete flags exactly that export.",
-     technique="Kani/CBMC bounded model checking (K-reindex R1/R3, K-opmap stale-reference harnesses, K-ops deletions)", outside=K_IDX_OUT + "; the emission loops honouring the deleted flags")
+M_TEXT = (" In addition (engine M, module-level translation validation): the real parse -> edit history -> encode pipeline is run natively on a base module "
+          "that contains every kind of module-level reference (exports of globals/functions/memories, element segments as function lists and as ref.func expressions, "
+          "element/data offsets and global/table initialisers using global.get / ref.func, code using global.get / call / i32.load / memory.size), for every history of "
+          "<= 2 (quick) / 3 (thorough) steps of the property's menu; z3 then decides, for ALL host-supplied values (imported globals, imported function results, memory contents and sizes), "
+          "that every observable of the encoded module - what each export designates, where each data segment lands, what each element segment and table initialiser yields - equals "
+          "the observable of the reference module in which an ID simply is the entity it was handed out for; a history that leaves a live reference to a deleted entity must make encode() fail loudly. ")
+M_OUT = "; engine M: one base module, histories of <= 3 steps, straight-line function bodies, no mutable-global writes / start function / passive segments / tables beyond their initialiser"
+
+prop("C06", "KM", "model_checking", text=K_IDX_TEXT + "For C06: function operators Call / ReturnCall / RefFunc and InitInstr::RefFunc, function operations add_import_func / add_local_func / delete_func / convert_local_fn_to_import / convert_import_fn_to_local." + M_TEXT,
+     technique="z3 equivalence of the instantiation semantics of the real encoder's output with a label-based reference model over bounded-exhaustive edit histories (engine M) + Kani/CBMC bounded model checking of the generic re-indexing code on light types (inductive over the reachable-state invariant), of single edit operations on the real Module and of fix_op_id_mapping over all Operator variants", outside=K_IDX_OUT + M_OUT)
+prop("C07", "KM", "model_checking", text=K_IDX_TEXT + "For C07: the 11 global-indexed operators and InitInstr::Global; add_global, add_imported_global (also after an iterator-level add_global), delete_global, mod_global_init_expr." + M_TEXT,
+     technique="z3 equivalence of the instantiation semantics of the real encoder's output with a label-based reference model over bounded-exhaustive edit histories (engine M) + Kani/CBMC bounded model checking (K-ops on globals, K-reindex, K-opmap)", outside=K_IDX_OUT + "" + M_OUT)
+prop("C08", "KM", "model_checking", text=K_IDX_TEXT + "For C08: all 117 memory-indexed operators (111 memarg + memory.size/grow/init/copy/fill/discard); add_local_memory, add_import_memory, delete_memory." + M_TEXT,
+     technique="z3 equivalence of the instantiation semantics of the real encoder's output with a label-based reference model over bounded-exhaustive edit histories (engine M) + Kani/CBMC bounded model checking (K-ops on memories, K-reindex, K-opmap over every memarg/mem/src_mem/dst_mem operator)", outside=K_IDX_OUT + "" + M_OUT)
+prop("C09", "KM", "model_checking", text=K_IDX_TEXT + "For C09: deleted entities disappear and have NO mapping (R1/R3), every other entity keeps its identity; a reference to an unmapped index panics in fix_op_id_mapping for every referencing operator (expect-panic harnesses: the code after the call is unreachable); delete_func/global/memory flag exactly the addressed entity and its import entry; ModuleExports::delete flags exactly that export." + M_TEXT,
+     technique="z3 equivalence of the instantiation semantics of the real encoder's output with a label-based reference model over bounded-exhaustive edit histories (engine M) + Kani/CBMC bounded model checking (K-reindex R1/R3, K-opmap stale-reference harnesses, K-ops deletions)", outside=K_IDX_OUT + "; the emission loops honouring the deleted flags" + M_OUT)
 prop("C10", "K", "model_checking", text=K_IDX_TEXT + "For C10: Inv contains the states replace_import_in_module produces (an original import position holding a local function whose import entry is flagged deleted, incl. subsequently deleted); K-reindex decides that every such state is re-indexed with all identities kept; K-ops decides convert_import_fn_to_local itself (the function BOUND to the given ImportsID becomes the local one - also after another function was deleted - exactly that import entry is flagged, Inv holds).",
      technique="Kani/CBMC bounded model checking (K-reindex over Inv incl. import->local states, K-ops add/delete)", outside=K_IDX_OUT)
 prop("C11", "K", "model_checking", text=K_IDX_TEXT + "For C11: Inv contains local->import conversions (an import-kind entity after the original import region bound to an added entry); R5 decides the import-section order agreement for them; K-ops decides convert_local_fn_to_import itself (exactly that local becomes an import bound to a new entry of the requested type, an import is refused, Inv holds).",
      technique="Kani/CBMC bounded model checking (K-reindex R1-R3,R5 over Inv incl. local->import states, K-ops add_import)", outside=K_IDX_OUT)
 prop("C29", "K", "model_checking", text="Bounded model checking of the naming path owned by wirm: set_fn_name on a real Module (mixed import kinds, after add_import_func) names exactly the function the id designates and the import entry it is bound to; K-reindex carries entities (and therefore the names stored in them) to their final positions and R5 fixes the order in which import names are emitted.",
      technique="Kani/CBMC bounded model checking (K-ops set_fn_name, K-reindex)", outside="local / global / label name maps are stored at parse time and re-emitted verbatim (mod.rs:1750-1759): no wirm code touches them between parse and encode, so there is nothing to execute symbolically - whether they SHOULD be re-indexed after edits is exactly what this machinery cannot observe; function-name emission lines in encode_internal")
-prop("C30", "K", "model_checking", text="Bounded model checking on the real Module: add_global / add_imported_global / add_local_memory / add_import_memory / add_export_func / add_export_mem / add_data store exactly the requested types, limits, payloads and initialisers and return ids designating the added item; mod_global_init_expr changes only the addressed initialiser; the initialiser bytes are exact for all constants (K-const) and the content type survives both encoders (K-conv).",
-     technique="Kani/CBMC bounded model checking (K-ops additions, K-const, K-conv)", outside="section emission in encode_internal (wasm-encoder calls)")
+prop("C30", "KM", "model_checking", text="Bounded model checking on the real Module: add_global / add_imported_global / add_local_memory / add_import_memory / add_export_func / add_export_mem / add_data store exactly the requested types, limits, payloads and initialisers and return ids designating the added item; mod_global_init_expr changes only the addressed initialiser; the initialiser bytes are exact for all constants (K-const) and the content type survives both encoders (K-conv)." + M_TEXT,
+     technique="z3 equivalence of the instantiation semantics of the real encoder's output with a label-based reference model over bounded-exhaustive edit histories (engine M) + Kani/CBMC bounded model checking (K-ops additions, K-const, K-conv)", outside="section emission in encode_internal (wasm-encoder calls)" + M_OUT)
 
 
 prop("C13", "K", "model_checking",
